@@ -404,6 +404,10 @@ func (c *pathParser) addSeg(segString []byte) error {
 
 // addArcFromA adds a path of an arc element to the cursor path to the pathCursor
 func (c *pathParser) addArcFromA(points []Fl) {
+	if points[5] == c.currentX && points[6] == c.currentY {
+		// "If the endpoints are identical, then this is equivalent to omitting the elliptical arc segment entirely"
+		return
+	}
 	if points[0] == 0 || points[1] == 0 {
 		// "If rx = 0 or ry = 0 then this arc is treated as a straight line segment"
 		c.lineTo(points[5], points[6])
